@@ -1573,9 +1573,18 @@ func TestC13(t *testing.T) {
 			e.penaltySequence(base, g1, pi)
 		}
 	}
+	// savings across zero-rate windows through the real wasm binding: the history of s94, the touched locker (D35), lockers
+	// created in the window
+	for v := 0; v < 3; v++ {
+		e.zeroWindowSequence(base, v)
+	}
 	seqs := scale(60, 1200)
 	maxOps := scale(70, 160)
 	for s := 0; s < seqs; s++ {
+		if s%16 == 9 {
+			e.zeroWindowSequence(base, 3)
+			continue
+		}
 		if s%8 == 5 {
 			lot := int64(1000 * (1 + rng.Intn(500)))
 			if rng.Chance(50) {
